@@ -83,68 +83,175 @@ def gen_case(r, cid, cls, uni=False):
                 rpc_splits.append([i, hx(free.pop(r.randrange(len(free))))])
         return {"id": cid, "class": cls, "mode": "txn", "splits": [hx(x) for x in splits], "pre": pre, "ops": ops, "end": end,
                 "settle_ms": 2500, "rpc_splits": rpc_splits}
+    if cls in ("dynresolve", "insert", "primary", "crash"):
+        pool = KEYS[:10]
+        splits = sorted(set(r.sample(pool[1:], r.randrange(0, 4))))
+        val = lambda f: hx(bytes([100 + f, r.randrange(48, 58), r.randrange(48, 58)]))
+        ops, extra = [], {}
+        if cls == "dynresolve":
+            # the layout changes while the resolve runs: splits / merges right before the i-th ResolveLock RPC
+            splits = sorted(set(r.sample(pool[1:], r.randrange(1, 4))))
+            for f in range(r.randrange(1, 3)):
+                for k in r.sample(pool, r.randrange(2, 7)):
+                    ops.append(["del", hx(k)] if r.random() < 0.15 else ["set", hx(k), val(f)])
+                ops.append(["flush"])
+            ch = []
+            for i in sorted(r.sample(range(1, 6), r.randrange(1, 4))):
+                ch.append([i, r.choice(["split", "split", "merge"]), hx(r.choice(pool + [b"k0", b"k55", b"k8\x00"]))])
+            extra["resolve_changes"] = ch
+        elif cls == "insert":
+            # Insert (presumeKeyNotExists) of a committed key: the store rejects the flush, the transaction must fail
+            if not pre:
+                pre = [[hx(pool[3]), hx(b"old")]]
+            prekeys = [bytes.fromhex(k) for k, _ in pre]
+            ins = r.choice(prekeys) if r.random() < 0.7 else r.choice([k for k in pool if k not in prekeys])
+            others = [k for k in pool if k != ins]
+            nfl, at = r.randrange(1, 4), None
+            at = r.randrange(nfl)
+            for f in range(nfl):
+                for k in r.sample(others, r.randrange(1, 4)):
+                    ops.append(["set", hx(k), val(f)])
+                if f == at:
+                    ops.insert(len(ops) - r.randrange(0, 2), ["insert", hx(ins), hx(b"new")])
+                if r.random() < 0.4:
+                    ops.append(["get", hx(r.choice(pool))])
+                ops.append(["flush"])
+        elif cls == "primary":
+            # the primary (first flushed key) is deleted / overwritten by a later generation
+            ks = sorted(r.sample(pool, r.randrange(2, 5)))
+            for k in ks:
+                ops.append(["set", hx(k), val(0)])
+            ops.append(["flush"])
+            ops.append(["del", hx(ks[0])] if r.random() < 0.6 else ["set", hx(ks[0]), val(1)])
+            for k in r.sample(pool, r.randrange(0, 3)):
+                ops.append(["set", hx(k), val(1)])
+            ops.append(["get", hx(ks[0])])
+            if r.random() < 0.5:
+                free = [k for k in pool[1:] if k not in splits]
+                ops.append(["split", hx(r.choice(free))])
+            ops.append(["flush"])
+            if r.random() < 0.4:
+                ops += [["set", hx(ks[0]), val(2)], ["flush"]]
+            ops.append(["get", hx(ks[0])])
+        else:
+            # the client disappears after k generations (optionally in the middle of one: the store stops answering Flush)
+            for f in range(r.randrange(1, 4)):
+                for k in r.sample(pool, r.randrange(1, 5)):
+                    ops.append(["del", hx(k)] if r.random() < 0.15 else ["set", hx(k), val(f)])
+                ops.append(["flush"])
+            if r.random() < 0.4:
+                ops.append(["set", hx(r.choice(pool)), val(9)])
+            end = "crash"
+            if r.random() < 0.4:
+                extra["fail_flush_from"] = r.randrange(1, 5)
+        c = {"id": cid, "class": cls, "mode": "txn", "splits": [hx(x) for x in splits], "pre": pre, "ops": ops, "end": end, "settle_ms": 2500}
+        c.update(extra)
+        return c
     return {"id": cid, "class": cls, "mode": "probe" if cls == "probe" else "txn", "splits": [hx(s) for s in splits],
             "pre": pre, "ops": ops, "end": end, "settle_ms": 2500}
 
 
 def reference(case):
-    """python reference of one transaction: reads inside (latest write, else committed pre value), final state,
-    flushed generations as the model-independent expectation (used for oracles only)."""
+    """python reference of one transaction, independent of the Coq model. Returns a dict:
+    reads   per get/bget op the expected result (None = not checked: after a failed flush)
+    operr   per op: True = must report an error, False = must not, None = unspecified
+    enderr  likewise for Commit/Rollback; final: committed value of every key afterwards
+    gens    generation -> mutations the i-th buffer flush holds; sent: generations whose Flush RPCs are sent
+    failed  a flush is expected to be rejected by the store (insert of an existing key)"""
     pre = {k: v for k, v in case["pre"]}
-    truth = {}
-    reads = []
+    inject = bool(case.get("fail_flush_from"))
+    truth, reads, operr = {}, [], []
+    gens, sent, cur, cur_ins = {}, [], {}, set()
+    failed = False
+
+    def do_flush():
+        nonlocal cur, cur_ins, failed
+        g = len(gens) + 1
+        gens[g] = cur
+        if not failed and cur:
+            sent.append(g)
+        if not failed and any(k in pre for k in cur_ins):
+            failed = True
+        cur, cur_ins = {}, set()
+
     for op in case["ops"]:
-        if op[0] == "set":
-            truth[op[1]] = op[2]
+        if op[0] in ("set", "insert"):
+            truth[op[1]] = op[2]; cur[op[1]] = op[2]
+            if op[0] == "insert":
+                cur_ins.add(op[1])
+            operr.append(False)
         elif op[0] == "del":
-            truth[op[1]] = None
+            truth[op[1]] = None; cur[op[1]] = ""
+            operr.append(False)
         elif op[0] == "get":
             k = op[1]
-            reads.append(truth[k] if k in truth else pre.get(k))
+            reads.append(None if failed or inject else ("v", truth[k] if k in truth else pre.get(k)))
+            operr.append(None if failed or inject else False)
         elif op[0] == "bget":
             m = {}
             for k in op[1]:
-                v = truth[k] if k in truth else pre.get(k)
-                if v is not None:
-                    m[k] = v
-            reads.append(m)
-    # generation i = i-th Flush(true) of the buffer; it is handed the writes since the previous one
-    gens, cur = {}, {}
-    for op in case["ops"] + ([["flush"]] if case["end"] == "commit" else []):
-        if op[0] == "set":
-            cur[op[1]] = op[2]
-        elif op[0] == "del":
-            cur[op[1]] = ""
-        elif op[0] in ("flush", "flushnw"):
-            gens[len(gens) + 1] = cur
-            cur = {}
-    case["_gens"] = gens
+                val = truth[k] if k in truth else pre.get(k)
+                if val is not None:
+                    m[k] = val
+            reads.append(None if failed or inject else ("m", m))
+            operr.append(None if failed or inject else False)
+        elif op[0] == "flush":
+            do_flush()
+            operr.append(None if inject else failed)
+        elif op[0] == "flushnw":
+            was = failed
+            do_flush()
+            operr.append(None if inject or failed != was or failed else False)
+        else:
+            operr.append(False)
+    enderr = None
+    if case["end"] == "commit":
+        do_flush()
+        enderr = None if inject else failed
+    elif case["end"] == "rollback":
+        enderr = False
     if case["mode"] == "probe":
         truth = {op[1]: b"pv".hex() for op in case["ops"] if op[0] == "set"}
     final = dict(pre)
-    if case["end"] == "commit":
-        for k, v in truth.items():
-            final[k] = v
+    if case["end"] == "commit" and not failed and not inject:
+        for k, val in truth.items():
+            final[k] = val
     keys = set(pre) | set(truth)
-    return reads, {k: final.get(k) for k in keys}
+    return {"reads": reads, "operr": operr, "enderr": enderr, "final": {k: final.get(k) for k in keys}, "gens": gens,
+            "sent": sent, "failed": failed, "inject": inject, "final_checked": not (inject and case["end"] == "commit")}
 
 
-def model_lines(case):
-    """the transaction as ops of the Pipelined model (no '=>' part: modelrun only replays and prints FINAL)"""
+def model_lines(case, ref):
+    """the transaction as ops of the Pipelined model; flushwait lines carry the outcome python expects the client to
+    report (compared by modelrun), the wait-outcome 0 marks the flush the store is expected to reject"""
     L = ["CASE\t%s\t0\t0\t0" % case["id"]]
+    cmpr = not ref["inject"]
+    failed, cur_ins, pre = False, set(), {k for k, _ in case["pre"]}
+
+    def fl(wait):
+        nonlocal failed, cur_ins
+        rejects = (not failed) and any(k in pre for k in cur_ins)
+        cur_ins = set()
+        L.append("OP\tflush\t1\t0\t1")
+        if rejects:
+            failed = True
+        if wait:
+            L.append("OP\tflushwait\t%s%s" % ("0" if rejects else "1", ("\t=>\t" + ("err" if failed else "ok")) if cmpr else ""))
+        elif rejects:
+            L.append("OP\tcomplete\t0")
     for op in case["ops"]:
-        if op[0] == "set":
+        if op[0] in ("set", "insert"):
             L.append("OP\tset\t%s\t%s" % (op[1], op[2]))
+            if op[0] == "insert":
+                cur_ins.add(op[1])
         elif op[0] == "del":
             L.append("OP\tdel\t%s" % op[1])
         elif op[0] == "flush":
-            L += ["OP\tflush\t1\t0\t1", "OP\tflushwait\t1"]
+            fl(True)
         elif op[0] == "flushnw":
-            L.append("OP\tflush\t1\t0\t1")
-    if case["mode"] == "probe":
-        L += ["OP\tflush\t1\t0\t1", "OP\tflushwait\t1"]
-    elif case["end"] == "commit":
-        L += ["OP\tflush\t1\t0\t1", "OP\tflushwait\t1"]
+            fl(False)
+    if case["mode"] == "probe" or case["end"] == "commit":
+        fl(True)
     else:
         L.append("OP\tflushwait\t1")
     L.append("END\t%s" % case["id"])
@@ -155,32 +262,54 @@ def locate(splits, k):
     return sum(1 for s in splits if bytes.fromhex(s) <= bytes.fromhex(k))
 
 
-def audit(case, res, model_final, model_res, kind, v, stats):
-    """oracles on the implementation (+ comparison with the model's bounds / flush log / resolved regions)"""
-    cid = case["id"]
-    fails = []
+def in_region(rg, k):
+    kb = bytes.fromhex(k)
+    return bytes.fromhex(rg[0] or "") <= kb and (rg[1] is None or kb < bytes.fromhex(rg[1]))
+
+
+def audit(case, res, model, kind, v, stats):
+    """oracles on the implementation (+ comparison with the model's bounds / primary / flush log / resolved regions)"""
+    fails, corr, n = [], [], 0
     if res.get("panic"):
         fails.append(("harness-panic", res["panic"]))
-    reads, final = reference(case)
-    errs = [r["err"] for r in (res.get("results") or []) if r.get("err")] + ([res["end_err"]] if res.get("end_err") else [])
+    ref = reference(case)
+    model_final, model_res, model_mism, model_served = model.get("final"), model.get("regions"), model.get("mismatch"), model.get("served")
     layout = res.get("regions") if kind == "mock" else res.get("region_splits")
     layout = case["splits"] if layout is None else layout
-    if errs:
-        fails.append(("no-unexpected-error", "; ".join(map(str, errs))[:300]))
-    n = 0
-    # C16_resolve_covers: no lock of the transaction remains, single outcome
+    dyn = bool(case.get("resolve_changes"))
+    hole = False
+    # errors: exactly where expected
+    for idx, (op, exp, r) in enumerate(zip(case["ops"], ref["operr"], res.get("results") or [])):
+        if exp is None:
+            continue
+        n += 1
+        if bool(r.get("err")) != exp:
+            fails.append(("C16_flush_error_fails_txn" if exp else "no-unexpected-error",
+                          "op %d %s: %s" % (idx, op[0], ("expected an error (an earlier flush was rejected by the store), got none" if exp else "unexpected error " + str(r.get("err"))[:200]))))
+    if ref["enderr"] is not None:
+        n += 1
+        if bool(res.get("end_err")) != ref["enderr"]:
+            fails.append(("C16_flush_error_fails_txn" if ref["enderr"] else "no-unexpected-error",
+                          "%s: %s" % (case["end"], "succeeded although a flush had failed" if ref["enderr"] else "unexpected error " + str(res.get("end_err"))[:200])))
+    if res.get("gc_err"):
+        fails.append(("C16_crash_recoverable", "second client could not resolve: " + res["gc_err"][:200]))
+    # C16_resolve_covers / C16_crash_recoverable: no lock of the transaction remains, single outcome
     n += 1
     if res.get("locks_left"):
-        fails.append(("C16_resolve_covers", "locks of the transaction left after %s ms: %s" % (res.get("settled_ms"), res["locks_left"])))
+        fails.append(("C16_crash_recoverable" if case["end"] == "crash" else "C16_resolve_covers",
+                      "locks of the transaction left after %s ms: %s" % (res.get("settled_ms"), res["locks_left"])))
     got_final = {k: (None if val in ("nf", None) else val) for k, val in (res.get("final") or {}).items()}
-    for k, exp in final.items():
-        n += 1
-        if got_final.get(k) != exp:
-            fails.append(("C16_resolve_covers/uniform-outcome", "after %s key %s reads %s, expected %s" % (case["end"], k, got_final.get(k), exp)))
-    # C16_flush_once on the wire: every Flush RPC carries the generation of the buffer flush that produced it
+    if ref["final_checked"]:
+        for k, exp in ref["final"].items():
+            n += 1
+            if got_final.get(k) != exp:
+                fails.append(("C16_crash_recoverable/nothing-committed" if case["end"] == "crash" else "C16_resolve_covers/uniform-outcome",
+                              "after %s key %s reads %s, expected %s" % (case["end"], k, got_final.get(k), exp)))
+    cancelled = case["end"] in ("rollback", "crash") and any(o[0] == "flushnw" for o in case["ops"])   # Rollback cancels a running flush
+    partial = cancelled or ref["failed"] or ref["inject"]
     if case["mode"] == "txn":
-        gens = case["_gens"]
-        cancelled = case["end"] == "rollback" and any(o[0] == "flushnw" for o in case["ops"])   # Rollback cancels a running flush
+        # C16_flush_once on the wire: every Flush RPC carries the generation of the buffer flush that produced it
+        gens = ref["gens"]
         seen_g = {}
         for f in res.get("flushes") or []:
             n += 1
@@ -193,31 +322,67 @@ def audit(case, res, model_final, model_res, kind, v, stats):
         recs = [(f["gen"], frozenset(map(tuple, f["muts"]))) for f in res.get("flushes") or []]
         if any(m2 < m1 for i, (g1, m1) in enumerate(recs) for (g2, m2) in recs[i + 1:]):
             stats[kind + "_cases_with_regrouped_flush_batch"] = stats.get(kind + "_cases_with_regrouped_flush_batch", 0) + 1
-        if not cancelled:
+        if not partial:
             for g, exp in gens.items():
                 n += 1
                 if exp and seen_g.get(g, {}) != exp and not any(b for b in fails if b[0].startswith("C16_flush_once")):
                     fails.append(("C16_flush_once/rpc-generation", "buffer flush %s held %s, Flush RPCs of that generation carried %s" % (g, exp, seen_g.get(g, {}))))
-    if True:
-        it = iter(reads)
+        # reads inside the transaction
+        it = iter(ref["reads"])
         for op, r in zip(case["ops"], res.get("results", [])):
-            if op[0] == "get":
-                n += 1
+            if op[0] in ("get", "bget"):
                 exp = next(it)
-                if r.get("v") != exp:
-                    fails.append(("C16_read_latest", "txn.Get(%s) returned %s, latest write / snapshot value is %s" % (op[1], r.get("v"), exp)))
-            elif op[0] == "bget":
+                if exp is None:
+                    continue
                 n += 1
-                exp = next(it)
-                if (r.get("m") or {}) != exp:
-                    fails.append(("C16_read_latest", "txn.BatchGet(%s) returned %s, expected %s" % (op[1], r.get("m"), exp)))
-    # correspondence with the model (mock driver exposes bounds, Flush RPCs and ResolveLock targets)
-    corr = []
-    if kind == "mock" and model_final is not None:
-        mps, mpe, mflushed, mflog = model_final
+                got = r.get("v") if exp[0] == "v" else (r.get("m") or {})
+                if got != exp[1]:
+                    fails.append(("C16_read_latest", "txn.%s(%s) returned %s, latest write / snapshot value is %s" % ("Get" if exp[0] == "v" else "BatchGet", op[1], got, exp[1])))
+        if kind == "mock":
+            # keep-alive of the primary lock runs once the primary is flushed, and stops with the transaction
+            first = ref["sent"][0] if ref["sent"] else None
+            g = 0
+            for op, r in zip(case["ops"], res.get("results", [])):
+                if op[0] in ("flush", "flushnw"):
+                    g += 1
+                    if op[0] == "flush" and first is not None and g >= first and not r.get("err") and not ref["inject"]:
+                        n += 1
+                        if r.get("ttl_running") is not True:
+                            fails.append(("ttl-keepalive", "after flush %d (primary flushed in generation %d) the ttl manager is not running" % (g, first)))
+                    if op[0] == "flush" and first is not None and not ref["inject"] and r.get("lock_primaries") is not None:
+                        n += 1
+                        if not set(r["lock_primaries"]) <= {min(gens[first], key=bytes.fromhex)}:
+                            fails.append(("C16_crash_recoverable/primary", "after flush %d the transaction's locks point to primaries %s, the primary is %s" % (g, r["lock_primaries"], min(gens[first], key=bytes.fromhex))))
+            n += 1
+            if res.get("ttl_running_end"):
+                fails.append(("ttl-keepalive", "ttl manager still running after " + case["end"]))
+            # primary = smallest key of the first generation that is sent; it never changes
+            if first is not None and not ref["inject"]:
+                n += 1
+                exp_primary = min(gens[first], key=bytes.fromhex)
+                if res.get("primary") != exp_primary:
+                    fails.append(("C16_crash_recoverable/primary", "primary key %s, first flushed key is %s" % (res.get("primary"), exp_primary)))
+    # every flushed key lies in a region that answered a ResolveLock (layout may change while the resolve runs)
+    flushed = sorted({k for g in ref["sent"] for k in ref["gens"][g]}) if case["mode"] == "txn" else sorted({o[1] for o in case["ops"] if o[0] == "set"})
+    if kind == "mock" and case["end"] in ("commit", "rollback") and not ref["inject"] and not case.get("resolve_nil_at"):
+        served = res.get("served") or []
+        for k in flushed:
+            n += 1
+            if not any(in_region(rg, k) for rg in served):
+                fails.append(("C16_resolve_covers_dynamic", "flushed key %s is in none of the regions that answered a ResolveLock: %s" % (k, served)))
+                break
+        if model_served is not None and model_served != all(any(in_region(rg, k) for rg in served) for k in flushed):
+            corr.append("served_covers: model %s, python %s" % (model_served, not model_served))
+    # correspondence with the model (mock driver exposes bounds, primary, Flush RPCs and ResolveLock targets)
+    if kind == "mock" and model_final is not None and not ref["inject"] and not hole:
+        mps, mpe, mflushed, mflog, mprimary = model_final
+        if model_mism:
+            corr.append("client-visible flush outcomes: " + "; ".join(model_mism[:3]))
         if case["mode"] == "txn":
             if (res["pstart"] or "-") != mps or (res["pend"] or "-") != mpe:
                 corr.append("bounds: implementation [%s, %s], model [%s, %s]" % (res["pstart"], res["pend"], mps, mpe))
+            if (res.get("primary") or "-") != mprimary:
+                corr.append("primary: implementation %s, model %s" % (res.get("primary"), mprimary))
             byg = {}
             for f in res["flushes"]:
                 byg.setdefault(f["gen"], {}).update({k: (val or "_") for k, val in f["muts"]})
@@ -226,9 +391,9 @@ def audit(case, res, model_final, model_res, kind, v, stats):
                 for e in mflog.split("|"):
                     g, _, b = e.partition(":")
                     mg[int(g)] = dict(x.split("=") for x in b.split(","))
-            if (byg != mg) if not cancelled else any(not set(m.items()) <= set(mg.get(g, {}).items()) for g, m in byg.items()):
+            if (byg != mg) if not partial else any(not set(m.items()) <= set(mg.get(g, {}).items()) for g, m in byg.items()):
                 corr.append("Flush RPCs per generation %s, model flush log %s" % (byg, mg))
-        if model_res is not None and (res["pstart"] and res["pend"]):
+        if model_res is not None and (res["pstart"] and res["pend"]) and not dyn and case["end"] in ("commit", "rollback"):
             mset = set(model_res)
             iset = {locate(layout, s) if s else 0 for s in res["resolves"]}
             need = {locate(layout, k) for k in (mflushed.split(",") if mflushed != "-" else [])}
@@ -240,6 +405,10 @@ def audit(case, res, model_final, model_res, kind, v, stats):
             if iset == mset:
                 stats["resolve_sets_equal"] = stats.get("resolve_sets_equal", 0) + 1
     stats["commit_evals"] = stats.get("commit_evals", 0) + n
+    if dyn and len(res.get("served") or []) and any(c[0] <= len(res["served"]) + 1 for c in case["resolve_changes"]):
+        stats["cases_with_layout_change_during_resolve"] = stats.get("cases_with_layout_change_during_resolve", 0) + 1
+    if ref["failed"]:
+        stats["cases_with_store_rejected_flush"] = stats.get("cases_with_store_rejected_flush", 0) + 1
     seen = set()
     for name, what in fails:
         if name in seen:
@@ -252,36 +421,47 @@ def audit(case, res, model_final, model_res, kind, v, stats):
     if corr and not fails:
         stats["commit_model_mismatches"] = stats.get("commit_model_mismatches", 0) + 1
         if stats["commit_model_mismatches"] <= 3:
-            v.violation({"kind": "correspondence", "driver": "pipelinedtxn-" + kind, "correspondence": "Pipelined model (bounds / flush log / run_on_range) vs txn.go callback + resolveFlushedLocks + range task",
+            v.violation({"kind": "correspondence", "driver": "pipelinedtxn-" + kind, "correspondence": "Pipelined model (bounds / primary / flush log / flush outcomes / run_on_range) vs txn.go callback + resolveFlushedLocks + range task",
                          "what": "; ".join(corr), "case": case, "implementation": res}, has_input=False)
     return not fails and not corr
 
 
-def run_model(modelrun, cases, layouts):
-    """-> {id: (pstart, pend, flushedkeys, flog)}, {id: [regions]} ; layouts: id -> split keys at the time of the resolve"""
+def run_model(modelrun, cases, results):
+    """-> {id: {"final": (pstart, pend, flushedkeys, flog, primary), "regions": [...], "mismatch": [...], "served": bool}}"""
     lines = []
     for c in cases:
-        lines += model_lines(c)
+        lines += model_lines(c, reference(c))
     rc, out = vlib.sh([modelrun], inp="\n".join(lines) + "\n", timeout=600)
-    finals = {}
+    M = {c["id"]: {} for c in cases}
     for l in out.splitlines():
         f = l.split("\t")
-        if f[0] == "FINAL":
-            finals[f[1]] = (f[2], f[3], f[6], f[7])
-    rl = []
+        if f[0] == "FINAL" and f[1] in M:
+            M[f[1]]["final"] = (f[2], f[3], f[6], f[7], f[8])
+        elif f[0] == "MISMATCH" and f[1] in M:
+            M[f[1]].setdefault("mismatch", []).append(" ".join(f[2:]))
+    rl, sl = [], []
     for c in cases:
-        fin = finals.get(c["id"])
+        fin = M[c["id"]].get("final")
+        res = results.get(c["id"]) or {}
         if fin and fin[0] != "-" and fin[1] != "-":
-            rl.append("R\t%s\t%s\t%s\t%s\t%s" % (c["id"], ",".join(layouts.get(c["id"], c["splits"])) or "-", fin[0], fin[1], fin[2]))
+            rl.append("R\t%s\t%s\t%s\t%s\t%s" % (c["id"], ",".join(res.get("regions") or c["splits"]) or "-", fin[0], fin[1], fin[2]))
+        if fin and res.get("served"):
+            ref = reference(c)
+            flushed = sorted({k for g in ref["sent"] for k in ref["gens"][g]}) if c["mode"] == "txn" else sorted({o[1] for o in c["ops"] if o[0] == "set"})
+            sv = ";".join("%s:%s" % (a or "-", "~" if b is None else b) for a, b in res["served"])
+            if flushed:
+                sl.append("S\t%s\t%s\t%s" % (c["id"], sv, ",".join(flushed)))
     rc, out = vlib.sh([modelrun, "resolve"], inp="\n".join(rl) + "\n", timeout=600)
-    regs = {}
     for l in out.splitlines():
         f = l.split("\t")
         if f[0] == "R":
-            regs[f[1]] = [] if f[2] == "-" else [int(x) for x in f[2].split(",")]
-            if f[5] != "1":
-                regs[f[1] + "#uncovered"] = True
-    return finals, regs
+            M[f[1]]["regions"] = [] if f[2] == "-" else [int(x) for x in f[2].split(",")]
+    rc, out = vlib.sh([modelrun, "served"], inp="\n".join(sl) + "\n", timeout=600)
+    for l in out.splitlines():
+        f = l.split("\t")
+        if f[0] == "S":
+            M[f[1]]["served"] = f[2] == "1"
+    return M
 
 
 def run(tier, seed, v, stats, robj):
@@ -299,8 +479,9 @@ def run(tier, seed, v, stats, robj):
         kinds = [robj["driver"].split("-")[-1]]
     else:
         n = {"quick": 420, "thorough": 1500}.get(tier, 420)
-        classes = ["single", "border", "rand", "grow", "probe", "regroup", "regroup"]
-        cases = [gen_case(r, "m%d-%d" % (seed, i), classes[i % len(classes)]) for i in range(n)]
+        classes = ["single", "border", "rand", "grow", "probe", "regroup", "regroup", "dynresolve", "dynresolve", "insert", "primary", "crash"]
+        cases = json.load(open(os.path.join(vlib.VERIF, "corpus", "C16", "directed_commit.json")))
+        cases += [gen_case(r, "m%d-%d" % (seed, i), classes[i % len(classes)]) for i in range(n)]
         kinds = ["mock"] + (["uni"] if tier == "thorough" else [])
     if "mock" in kinds:
         cf = os.path.join(d, "mock-%s-%d.json" % (tier, seed))
@@ -316,10 +497,10 @@ def run(tier, seed, v, stats, robj):
         if rc != 0 or len(results) != len(cases):
             v.violation({"kind": "harness", "correspondence": "pipelinedtxn mock driver", "error": "rc=%d, %d/%d results: %s" % (rc, len(results), len(cases), out[-600:])}, has_input=False)
         else:
-            finals, regs = run_model(modelrun, cases, {i: o.get("regions") or [] for i, o in results.items()})
+            M = run_model(modelrun, cases, results)
             distinct = set()
             for c in cases:
-                audit(c, results[c["id"]], finals.get(c["id"]), regs.get(c["id"]), "mock", v, stats)
+                audit(c, results[c["id"]], M.get(c["id"], {}), "mock", v, stats)
                 cl = stats.setdefault("classes", {})
                 cl["commit-" + c["class"]] = cl.get("commit-" + c["class"], 0) + 1
                 distinct.add(hashlib.sha1(json.dumps([c["splits"], c["ops"], c["end"], c["mode"]]).encode()).hexdigest())
@@ -357,7 +538,7 @@ def run_unistore(tier, seed, v, stats, robj, r):
         v.violation({"kind": "harness", "correspondence": "pipelined unistore driver", "error": "rc=%d, %d/%d results: %s" % (rc, len(results), len(cases), out[-600:])}, has_input=False)
         return
     for c in cases:
-        audit(c, results[c["id"]], None, None, "uni", v, stats)
+        audit(c, results[c["id"]], {}, "uni", v, stats)
         cl = stats.setdefault("classes", {})
         cl["uni-" + c["class"]] = cl.get("uni-" + c["class"], 0) + 1
     stats["commit_cases"] = stats.get("commit_cases", 0) + len(cases)
